@@ -1168,6 +1168,21 @@ def _cimvalue(value, type_, p, what):
             parser_token=p)
 
 
+def _cimproperty(p, name, value, **kwargs):
+    """
+    Return a CIMProperty object for a property declaration with a default
+    value specified in MOF, raising MOFParseError if the value is not valid
+    for the declaration.
+    """
+    try:
+        return CIMProperty(name, cimvalue(value, kwargs['type']), **kwargs)
+    except (ValueError, TypeError) as exc:
+        raise MOFParseError(
+            msg=_format("Invalid default value {0!A} for property {1!A}: {2}",
+                        value, name, exc),
+            parser_token=p)
+
+
 def p_flavorList(p):
     """flavorList : flavor
                   | flavorList flavor
@@ -1221,10 +1236,7 @@ def p_propertyDeclaration_1(p):
 
 def p_propertyDeclaration_2(p):
     """propertyDeclaration_2 : dataType propertyName defaultValue ';'"""
-    p[0] = CIMProperty(p[2],
-                       _cimvalue(p[3], p[1], p,
-                                 _format("property {0!A}", p[2])),
-                       type=p[1])
+    p[0] = _cimproperty(p, p[2], p[3], type=p[1])
 
 
 def p_propertyDeclaration_3(p):
@@ -1235,10 +1247,8 @@ def p_propertyDeclaration_3(p):
 
 def p_propertyDeclaration_4(p):
     """propertyDeclaration_4 : dataType propertyName array defaultValue ';'"""
-    p[0] = CIMProperty(p[2],
-                       _cimvalue(p[4], p[1], p,
-                                 _format("property {0!A}", p[2])),
-                       type=p[1], is_array=True, array_size=p[3])
+    p[0] = _cimproperty(p, p[2], p[4], type=p[1], is_array=True,
+                        array_size=p[3])
 
 
 def p_propertyDeclaration_5(p):
@@ -1251,10 +1261,7 @@ def p_propertyDeclaration_6(p):
     # pylint: disable=line-too-long
     """propertyDeclaration_6 : qualifierList dataType propertyName defaultValue ';'"""  # noqa: E501
     quals = OrderedDict([(x.name, x) for x in p[1]])
-    p[0] = CIMProperty(p[3],
-                       _cimvalue(p[4], p[2], p,
-                                 _format("property {0!A}", p[3])),
-                       type=p[2], qualifiers=quals)
+    p[0] = _cimproperty(p, p[3], p[4], type=p[2], qualifiers=quals)
 
 
 def p_propertyDeclaration_7(p):
@@ -1268,11 +1275,8 @@ def p_propertyDeclaration_8(p):
     # pylint: disable=line-too-long
     """propertyDeclaration_8 : qualifierList dataType propertyName array defaultValue ';'"""  # noqa: E501
     quals = OrderedDict([(x.name, x) for x in p[1]])
-    p[0] = CIMProperty(p[3],
-                       _cimvalue(p[5], p[2], p,
-                                 _format("property {0!A}", p[3])),
-                       type=p[2], qualifiers=quals, is_array=True,
-                       array_size=p[4])
+    p[0] = _cimproperty(p, p[3], p[5], type=p[2], qualifiers=quals,
+                        is_array=True, array_size=p[4])
 
 
 def p_referenceDeclaration(p):
